@@ -357,6 +357,26 @@ Theorem read_tamper_needs_collision :
 Proof. exact read_tamper_needs_collision_lemma. Qed.
 Print Assumptions read_tamper_needs_collision.
 
+(* which octets are authenticated: any change of an octet 2..9 or 12..tsig_start-1 of the received
+   wire, or of ARCOUNT, changes the authenticated content (octets 0-1, the message id, are
+   replaced by the original id of the TSIG record, which is authenticated instead) *)
+Theorem altered_octet_changes_authenticated :
+  forall (w1 w2 : bytes) ad1 ad2 start rd1 rd2 p,
+    (10 <= length w1)%nat -> (10 <= length w2)%nat ->
+    ((2 <= p < 10)%nat \/ (12 <= p < start)%nat) ->
+    nth_error w1 p <> nth_error w2 p ->
+    authenticated w1 ad1 start rd1 <> authenticated w2 ad2 start rd2.
+Proof. exact altered_octet_changes_authenticated_lemma. Qed.
+Print Assumptions altered_octet_changes_authenticated.
+
+Theorem altered_arcount_changes_authenticated :
+  forall (w1 w2 : bytes) ad1 ad2 start1 start2 rd1 rd2,
+    (10 <= length w1)%nat -> (10 <= length w2)%nat ->
+    0 < ad1 < 65536 -> 0 < ad2 < 65536 -> ad1 <> ad2 ->
+    authenticated w1 ad1 start1 rd1 <> authenticated w2 ad2 start2 rd2.
+Proof. exact altered_arcount_changes_authenticated_lemma. Qed.
+Print Assumptions altered_arcount_changes_authenticated.
+
 (* ---- multi-message exchanges with any subset of envelopes unsigned (RFC 8945 5.3.1) ---- *)
 Theorem read_stream_is_rfc :
   forall H k rmac now ws ms ctx run,
